@@ -442,6 +442,12 @@ class Exec:
         """allocated during this activation (by it or by its callees)"""
         return ref >= self.entry_next
 
+    def small_int_axioms(self, i):
+        """instances of: every int has >= 1 digit, |i| <= 9 has exactly one"""
+        self.assume(L.int_digits(i) >= 1)
+        self.assume(z3.Implies(z3.And(i >= -9, i <= 9), L.int_digits(i) == 1))
+        self.assume(z3.Implies(z3.Or(i < -9, i > 9), L.int_digits(i) >= 2))
+
     def known(self, v):
         """well-formedness of a value obtained from the pre-state/heap/callee"""
         self.assume(L.refof(v) < self.cur_next())
